@@ -422,7 +422,8 @@ Section InplaceMore.
     let ah := mkah [] true true AMissing false None None [] (Some f) in
     match run_helper ct l (HTransform a) h s with
     | (Ok r, s') => r = VRef l /\
-                    spec_helper ct h0 (absv (heap s) (VRef l)) (STransform a) ah = SOk (absv (heap s') (VRef l))
+                    spec_helper ct h0 (absv (heap s) (VRef l)) (STransform a) ah = SOk (absv (heap s') (VRef l)) /\
+                    (forall i, i <> l -> nth_error (heap s') i = nth_error (heap s) i)
     | (Err e, s') => spec_helper ct h0 (absv (heap s) (VRef l)) (STransform a) ah = SErr e /\ heap s' = heap s
     end.
   Proof.
@@ -453,7 +454,8 @@ Section InplaceMore.
       unfold assign_gen in H. rewrite <- XFUEL_S in H.
       destruct (bind (prepare_attr_value ct (exec ct XFUEL) sp l v' None)
                      (fun v0 => mutate_attr ct (exec ct XFUEL) l a v0 true true false false) (ticked s)) as [[r|e] s'].
-      + destruct H as [-> [w [s2 [_ [_ [_ [_ [Hs Habs]]]]]]]]. split; [reflexivity|]. now rewrite Hs, Habs.
+      + destruct H as [-> [w [s2 [Hh2 [_ [_ [Hs' [Hs Habs]]]]]]]]. split; [reflexivity|]. split; [now rewrite Hs, Habs|].
+        intros i Hi. rewrite Hs', heap_upd, Hh2. apply set_nth_other. intro E. apply Hi. now symmetry.
       + destruct H as [Hs [Hh _]]. split; [exact Hs|exact Hh].
     - rewrite (bind_err _ _ _ _ _ (eq_trans (mutate_value_transform_scalar ct _ cur_val f _ _ false s Hcur) Hap)).
       cbn [sbind]. split; reflexivity.
@@ -567,7 +569,8 @@ Section InplaceMore.
     let ah := mkah [] true true AMissing false None None [] None in
     match run_helper ct l (HReset a) h s with
     | (Ok r, s') => r = VRef l /\
-                    spec_helper ct h0 (absv (heap s) (VRef l)) (SReset a) ah = SOk (absv (heap s') (VRef l))
+                    spec_helper ct h0 (absv (heap s) (VRef l)) (SReset a) ah = SOk (absv (heap s') (VRef l)) /\
+                    (forall i, i <> l -> nth_error (heap s') i = nth_error (heap s) i)
     | (Err e, s') => spec_helper ct h0 (absv (heap s) (VRef l)) (SReset a) ah = SErr e /\ heap s' = heap s
     end.
   Proof.
@@ -583,12 +586,14 @@ Section InplaceMore.
       pose proof (assign_scalar_closed ct l a c d k sp s Hl Hc Ha Hd Hok Hni Hty Hnc Hp 38 true (class_default k a) s
                     (Hpass_unfrozen true) eq_refl Hfa Hdv) as H.
       destruct (assign_gen ct l a sp (exec ct 39) true (class_default k a) s) as [[r|e] s'].
-      + destruct H as [_ [w [s2 [_ [_ [_ [_ [Hs Habs]]]]]]]]. split; [reflexivity|]. now rewrite Hs, Habs.
+      + destruct H as [_ [w [s2 [Hh2 [_ [_ [Hs' [Hs Habs]]]]]]]]. split; [reflexivity|]. split; [now rewrite Hs, Habs|].
+        intros i Hi. rewrite Hs', heap_upd, Hh2. apply set_nth_other. intro E. apply Hi. now symmetry.
       + destruct H as [Hs [Hh _]]. split; [exact Hs|exact Hh].
     - rewrite (delattr_nodefault_run _ s eq_refl (Hpass_unfrozen false) Hfac Hdv).
       rewrite (spec_reset_nodefault _ Hfac Hdv).
       destruct (assoc a d) as [w|].
-      + split; [reflexivity|]. now rewrite (abs_after_delete s eq_refl).
+      + split; [reflexivity|]. split; [now rewrite (abs_after_delete s eq_refl)|].
+        intros i Hi. rewrite heap_upd. apply set_nth_other. intro E. apply Hi. now symmetry.
       + split; reflexivity.
   Qed.
 End InplaceMore.
